@@ -13,7 +13,9 @@ Verdict(o) ==
                 IF v # "" THEN v ELSE IF NRows(o.t) = 0 THEN "" ELSE UnlistVerdict(o.t, o.by, o.unl, o.colcmp, "p")
            [] o.op = "groupby" ->
                 LET v == GroupbyVerdict(o.t, o.by, o.out) IN
-                IF v # "" THEN v ELSE UngroupVerdict(o.t, o.by, o.ung)
+                IF v # "" THEN v
+                ELSE IF ~o.ung2 THEN "ungroup_twice_differs"          \* ungroup must not consume the grouped table
+                ELSE UngroupVerdict(o.t, o.by, o.ung)
            [] o.op = "pivot" ->
                 LET v == PivotVerdict(o.t, o.x, o.y, o.z, o.agg, o.out) IN
                 IF v # "" THEN v ELSE IF o.agg = "last" THEN UnpivotVerdict(o.t, o.x, o.y, o.z, o.unp) ELSE ""
